@@ -219,7 +219,13 @@ class Check:
             expanded.append(j)
         jobs = expanded
         if self.only:
-            jobs = [j for j in jobs if re.search(self.only, j.name)]
+            sel = []
+            for j in jobs:   # a batch is replaced by those of its members that match
+                if j.members:
+                    sel += [m for m in j.members if re.search(self.only, m.name)]
+                elif re.search(self.only, j.name):
+                    sel.append(j)
+            jobs = sel
         self.jobs = jobs
         units = sorted(set(u for j in jobs for u in j.units))
         self.say('[%s/%s] %d queries, %d repo units, building IR from %s' % (self.pid, self.tier, len(jobs), len(units), REPO))
@@ -382,6 +388,9 @@ class Check:
             self.say('VIOLATION property=%s replay=%s' % (self.pid, fn))
             self.say('  job=%s failing="%s": %s' % (j.name, label, why))
         self.write_evidence(build_failed, violations, known_lines, notes)
+        jl = getattr(self, 'jobs', [])
+        nq = sum(len(j.members) if j.members else 1 for j in jl)
+        self.say('[%s/%s] done in %.0fs: %d queries, %d violation(s), %d known finding(s) reported' % (self.pid, self.tier, time.time() - self.t0, nq, len(violations), len(known_lines)))
         if not self.keep:
             shutil.rmtree(self.bdir, ignore_errors=True)
         if build_failed:
